@@ -10,7 +10,10 @@ META = {
 GROUP = "exec"
 REQ = ("From RV Require Import Prelude.\nFrom Planner Require Import Graph.\n"
        "From Exec Require Import ExecModel ModelTestOps.\nOpen Scope N_scope.")
-THEOREMS = []
+THEOREMS = ["C02_run_plan_refines_naive", "C02_no_use_after_free", "C02_run_refines_naive",
+            "C02_strategy_irrelevant", "C02_in_place_choice_irrelevant", "C02_pool_irrelevant",
+            "C02_owned_vs_borrowed_irrelevant", "C02_naive_eval_order_independent",
+            "C02_test_operators_meet_contract", "C02_prop_ok_reflect", "C02_nonvacuous"]
 
 
 def main(ctx):
